@@ -12,7 +12,10 @@ Input shapes: controllers written from one skeleton, one per file (the @Route va
 sit at the same line and column of different files), same-file control pairs, controllers spread over
 files and packages, star-shaped projects (a catch-all after ten or more literal siblings), controllers
 mounted under different prefixes (same method routes that do not collide, different method routes that
-do), methods that already carry other diagnostics."""
+do), methods that already carry other diagnostics, controllers mounted DEEP (a @Route of 3..7 segments, several
+methods whose own route is one segment, an overlapping route spelled out under a shorter prefix in another
+controller), @Hidden methods (absent from the specification, registered by every routes template like any
+other: entries of the route list)."""
 import concurrent.futures
 import copy
 import json
@@ -34,7 +37,9 @@ WORDS = ["health", "version", "metrics", "status", "ping", "ready", "live", "inf
 # ------------------------------------------------------------------ abstract projects
 # project  = {"kind", "prefix" (the common one, text), "shared_files", "controllers": [controller]}
 # controller = {"name", "pkg", "prefix", "descr", "tag", "methods": [method]}
-# method   = {"name", "verb", "segs": [...], "route": text, "file": k, "descr": text, "loose": bool}
+# method   = {"name", "verb", "segs": [...], "route": text, "file": k, "descr": text, "loose": bool,
+#             "hidden": bool, "hidden_form": text after "// @Hidden"}
+HIDDEN_FORMS = ["", "", "(internal)", " not for the public", "(ops-only) text"]
 
 def spell(rng, segs, leading=True):
     if not segs:
@@ -68,7 +73,9 @@ def mk_method(rng, idx, verb, segs, must_lead, descr=None, file=0, route=None):
             "file": file, "descr": rng.choice(["", "", "Does a thing"]) if descr is None else descr,
             # a function parameter no annotation refers to: the method (and its controller) already carries
             # diagnostics of the controller validator when the conflict warnings are merged in
-            "loose": rng.random() < 0.12}
+            "loose": rng.random() < 0.12,
+            # @Hidden: no operation in the specification; the route is registered and served all the same
+            "hidden": rng.random() < 0.18, "hidden_form": rng.choice(HIDDEN_FORMS)}
 
 
 def prefix_spellings(rng, prefix):
@@ -203,12 +210,91 @@ def gen_prefixed(rng, counter):
     return pr
 
 
+def gen_deep(rng, counter):
+    """A controller mounted deep (a @Route of 3..7 segments, literals and the odd parameter) with several methods
+    whose own route is ONE segment (literals, a parameter), some of two or none; another controller mounted at a
+    proper prefix of that mount point whose method routes spell the remaining segments out (some turned into
+    parameters) and go on with a segment that does / does not overlap; a bystander controller."""
+    depth = rng.choice([3, 3, 3, 3, 4, 5, 5, 6, 7, 2])
+    pool = ["api", "v1", "v2", "accounts", "orgs", "teams", "admin", "store", "inner", "ext"]
+    pre = rng.sample(pool, depth)
+    if rng.random() < 0.25:
+        pre[rng.randrange(depth)] = "{tenant}"
+    prefix = "/" + "/".join(pre)
+    verbs = [rng.choice(VERBS[:2])] * 3 + [rng.choice(VERBS)]
+    words = rng.sample(WORDS, 6)
+    deep = []
+    for i in range(rng.randint(2, 5)):                      # the one-segment methods
+        sg = "{id}" if rng.random() < 0.2 else words[i]
+        deep.append(mk_method(rng, next(counter), rng.choice(verbs), [sg], True, route="/" + sg))
+    for _ in range(rng.choice([0, 0, 1, 2])):               # others: no segment, two, three
+        segs = rng.choice([[], [rng.choice(words), "{key}"], ["{id}", rng.choice(LITS)],
+                           [rng.choice(LITS), rng.choice(LITS), "{key}"]])
+        deep.insert(rng.randint(0, len(deep)), mk_method(rng, next(counter), rng.choice(verbs), segs, True))
+    k = rng.randrange(depth)                                # the other controller's mount point: k leading segments
+    opre = ("/" + "/".join(pre[:k])) if k else ""
+    names = [n for n in ["kind", "x", "y", "zone", "grp", "part", "sub"]]
+    rng.shuffle(names)
+    others = []
+    for _ in range(rng.randint(1, 3)):
+        rest = [("{" + names.pop() + "}") if (rng.random() < 0.4 and names and not s_.startswith("{")) else s_ for s_ in pre[k:]]
+        r = rng.random()
+        tgt = rng.choice(deep)
+        if r < 0.65:
+            tail = list(tgt["segs"])                        # lands on a route of the deep controller
+            verb = tgt["verb"] if rng.random() < 0.85 else rng.choice(VERBS)
+        elif r < 0.85:
+            tail, verb = [rng.choice(words)], tgt["verb"]
+        else:
+            tail, verb = [rng.choice(words), "{key}"], tgt["verb"]
+        segs = rest + tail
+        if len(set(segs)) != len(segs):
+            continue
+        others.append(mk_method(rng, next(counter), verb, segs, True, route="/" + "/".join(segs)))
+    ctls = [{"name": rng.choice(["AccountsCtl", "MCtl"]), "methods": deep, "prefix": prefix}]
+    if others:
+        ctls.append({"name": rng.choice(["ACtl", "ReportsCtl", "ZCtl"]), "methods": others, "prefix": opre})
+    if rng.random() < 0.5:
+        ctls.append({"name": "StatusCtl", "prefix": "/status",
+                     "methods": [mk_method(rng, next(counter), "GET", [w], True, route="/" + w) for w in ("live", "ready")]})
+    for c in ctls:
+        c.update({"pkg": "ctl", "descr": "", "tag": "D"})
+    return {"kind": "deep", "prefix": "", "shared_files": False, "controllers": ctls}
+
+
+def gen_hidden(rng, counter):
+    """Overlaps one (or both) of whose ends is @Hidden, the visible end having no other partner; a visible / visible
+    overlap and hidden methods that overlap nothing as controls."""
+    prefix = rng.choice(["/users", "/api/users", ""])
+    verb = rng.choice(VERBS)
+    word = rng.sample(WORDS, 4)
+    hid = lambda m, h: dict(m, hidden=h, hidden_form=rng.choice(HIDDEN_FORMS))
+    legacy = [hid(mk_method(rng, next(counter), verb, ["{id}"], True, route="/{id}"), True),
+              hid(mk_method(rng, next(counter), "DELETE" if verb != "DELETE" else "PUT", ["{id}"], True, route="/{id}"), True)]
+    users = [hid(mk_method(rng, next(counter), verb, [word[0]], True, route="/" + word[0]), rng.random() < 0.25),
+             hid(mk_method(rng, next(counter), verb, [word[1], "{key}"], True), False),
+             hid(mk_method(rng, next(counter), rng.choice(VERBS), [], True, route="/"), rng.random() < 0.3)]
+    rng.shuffle(users)
+    ctls = [{"name": "LegacyCtl", "prefix": prefix, "methods": legacy},
+            {"name": rng.choice(["UsersCtl", "ACtl"]), "prefix": prefix_spellings(rng, prefix), "methods": users}]
+    if rng.random() < 0.7:
+        ctls.append({"name": "TeamsCtl", "prefix": "/teams", "methods": [
+            hid(mk_method(rng, next(counter), "GET", ["{team}"], True, route="/{team}"), False),
+            hid(mk_method(rng, next(counter), "GET", [word[2]], True, route="/" + word[2]), False),
+            hid(mk_method(rng, next(counter), "POST", [word[3]], True, route="/" + word[3]), True)]})
+    for c in ctls:
+        c.update({"pkg": "ctl", "descr": "", "tag": "H"})
+    return {"kind": "hidden", "prefix": "", "shared_files": False, "controllers": ctls}
+
+
 def deliberate_projects(counter):
     """Always present: the smallest projects of each shape."""
     def ctl(name, prefix, routes, pkg="ctl"):
+        # a route written "!/x" belongs to a @Hidden method
         return {"name": name, "pkg": pkg, "prefix": prefix, "descr": "", "tag": "T",
-                "methods": [{"name": "M%d" % next(counter), "verb": v, "segs": [x for x in r.split("/") if x], "route": r,
-                             "file": 0, "descr": ""} for (v, r) in routes]}
+                "methods": [{"name": "M%d" % next(counter), "verb": v, "segs": [x for x in r.lstrip("!").split("/") if x],
+                             "route": r.lstrip("!"), "file": 0, "descr": "", "hidden": r.startswith("!"), "hidden_form": ""}
+                            for (v, r) in routes]}
     crud = [("GET", "/"), ("GET", "/{id}"), ("POST", "/"), ("DELETE", "/{id}")]
     return [
         # two resources written from the same skeleton, mounted under the same prefix: every GET / DELETE / POST collides
@@ -228,6 +314,21 @@ def deliberate_projects(counter):
         # different prefixes: different method routes mounted at the same place, both are to be warned
         {"kind": "prefixed", "prefix": "", "shared_files": False,
          "controllers": [ctl("ACtl", "/a", [("GET", "/b")]), ctl("BCtl", "", [("GET", "/a/b")])]},
+        # a mount point of three segments, one-segment methods; one of them is also reachable through a controller
+        # mounted two segments deep: these two are to be warned, nobody else
+        {"kind": "deep", "prefix": "", "shared_files": False,
+         "controllers": [ctl("AccountsCtl", "/api/v1/accounts", [("GET", "/list"), ("GET", "/search"), ("GET", "/me"), ("POST", "/import")]),
+                         ctl("ReportsCtl", "/api/v1", [("GET", "/{kind}/me"), ("GET", "/{kind}/all/{year}")])]},
+        # the same five and six segments deep, the last one-segment method being the overlapping one
+        {"kind": "deep", "prefix": "", "shared_files": False,
+         "controllers": [ctl("MCtl", "/api/v1/orgs/inner/accounts", [("GET", "/list"), ("GET", "/x/{id}"), ("GET", "/me")]),
+                         ctl("NCtl", "/api/v1/orgs/inner/accounts/ext", [("PUT", "/a"), ("PUT", "/{id}"), ("POST", "/b"), ("GET", "/c")]),
+                         ctl("ZCtl", "/api/v1/orgs", [("GET", "/inner/{kind}/list")])]},
+        # a @Hidden method is served like any other: it and the visible route it overlaps are to be warned
+        {"kind": "hidden", "prefix": "", "shared_files": False,
+         "controllers": [ctl("LegacyCtl", "/users", [("GET", "!/{id}"), ("DELETE", "!/{id}")]),
+                         ctl("UsersCtl", "/users", [("GET", "/me"), ("GET", "/export/{format}"), ("POST", "/")]),
+                         ctl("TeamsCtl", "/teams", [("GET", "/{team}"), ("GET", "/archived"), ("PUT", "!/{team}")])]},
         # no conflict at all
         {"kind": "random", "prefix": "/api", "shared_files": False,
          "controllers": [ctl("ACtl", "/api", [("GET", "/a"), ("POST", "/a"), ("GET", "/b/{id}")]),
@@ -249,8 +350,9 @@ def gen_projects(rng, n):
     out = deliberate_projects(counter)
     for i in range(n):
         r = rng.random()
-        out.append(gen_twins(rng, counter) if r < 0.4 else gen_random(rng, counter) if r < 0.62 else
-                   gen_star(rng, counter) if r < 0.76 else gen_prefixed(rng, counter))
+        out.append(gen_twins(rng, counter) if r < 0.3 else gen_random(rng, counter) if r < 0.48 else
+                   gen_star(rng, counter) if r < 0.58 else gen_prefixed(rng, counter) if r < 0.72 else
+                   gen_deep(rng, counter) if r < 0.88 else gen_hidden(rng, counter))
     return out
 
 
@@ -271,7 +373,8 @@ def to_render_project(pr):
             if m.get("loose"):
                 params.append({"name": "loose", "ctx": True, "loc": None, "alias": None, "type": "string", "pointer": False,
                                "validator": None, "slice": False})
-            ms.append({"name": m["name"], "verb": m["verb"], "route": m["route"], "hidden": False, "deprecated": False,
+            ms.append({"name": m["name"], "verb": m["verb"], "route": m["route"], "hidden": bool(m.get("hidden")),
+                       "hidden_form": m.get("hidden_form", ""), "deprecated": False,
                        "security": [], "params": params, "ret": None, "errtype": "error", "response": None, "errors": [],
                        "descr": m["descr"], "file": m["file"], "grouped": False, "template_context": []})
         ctls.append({"shape": "plain", "name": c["name"], "pkg": c["pkg"], "tag": c["tag"], "route": c["prefix"],
@@ -323,15 +426,15 @@ def observe(pr, out):
     want = {}
     for c in pr["controllers"]:
         for m in c["methods"]:
-            want[(c["name"], c["pkg"], m["name"])] = (c["prefix"], m["route"], m["verb"])
+            want[(c["name"], c["pkg"], m["name"])] = (c["prefix"], m["route"], m["verb"], bool(m.get("hidden")))
     methods, index = [], {}
     for k, m in enumerate(out["methods"]):
         key = (m["controller"], m["pkg"].rsplit("/", 1)[-1], m["receiver"])
-        if key not in want or want[key] != (m["prefix"], m["route"], m["verb"]):
+        if key not in want or want[key] != (m["prefix"], m["route"], m["verb"], bool(m.get("hidden"))):
             raise Broken("the pipeline sees a method the project does not have (renderer / generator mistake?): %r vs %r"
                          % (m, want.get(key)))
         methods.append({"prefix": m["prefix"], "route": m["route"], "verb": m["verb"],
-                        "label": "%s.%s.%s" % (key[1], key[0], key[2]), "file": os.path.basename(m["file"]),
+                        "label": "%s.%s.%s" % (key[1], key[0], key[2]), "hidden": bool(m.get("hidden")), "file": os.path.basename(m["file"]),
                         "range": [m["start_line"], m["start_col"], m["end_line"], m["end_col"]]})
         index[(m["controller"], m["receiver"], m["file"])] = k
     if len(methods) != len(want):
@@ -408,7 +511,7 @@ def describe(pr, r):
     for k in ob["warned"]:
         cnt[k] = cnt.get(k, 0) + 1
     return {"methods_in_validator_order": [
-        {"method": m["label"], "verb": m["verb"], "controller_prefix": m["prefix"], "route": m["route"], "file": m["file"],
+        {"method": m["label"], "verb": m["verb"], "hidden": m["hidden"], "controller_prefix": m["prefix"], "route": m["route"], "file": m["file"],
          "route_value_range": m["range"], "route_conflict_warnings": cnt.get(k, 0)} for k, m in enumerate(ob["methods"])],
         "conflicts_of_FindConflicts_on_these_entries": ob["conflicts"], "stray_warnings": ob["stray"]}
 
